@@ -306,3 +306,79 @@ func H_C16_order() {
 	vfNote(got)
 	vfAssert(got == want, "a lookup gives what a fresh Set gives for that name: first existing candidate in extension order")
 }
+
+// H_C16_history: histories of 3 (quick) / 5 (thorough) steps over one Set - GetTemplate of
+// two names, and loader edits in between (a file of the candidate list created or changed
+// to a new parsable / unparsable version, or deleted) - in production and development
+// mode, against a reference model of the documented protocol: outside development mode a
+// name that loaded once keeps returning that (possibly stale) template without the loader
+// being asked; a failed lookup caches nothing and is retried; development mode always
+// reflects the loader's current state; candidates are tried in extension order.
+// The two requested names share no candidate path (the aliasing case is H_C16_order).
+//
+//gosym:reach hit,loaded,failed
+//gosym:opts maxpaths=400000
+func H_C16_history() {
+	dev := ndBool("dev")
+	files := []string{"/a.jet", "/a.html.jet", "/b.jet"}
+	names := []string{"/a", "/b"}
+	cands := [][]string{{"/a", "/a.jet", "/a.html.jet", "/a.jet.html"}, {"/b", "/b.jet", "/b.html.jet", "/b.jet.html"}}
+	l := &c16Loader{exists: map[string]bool{}, openFail: map[string]bool{}, content: map[string]string{}}
+	set := NewSet(l, DevelopmentMode(dev))
+	cached := map[string]string{} // reference: name -> content it was loaded with
+	version := 0
+	steps := 3 + 2*vfTier()
+	for s := 0; s < steps; s++ {
+		tag := "s" + ndItoa(s)
+		switch op := ndChoice(tag+".op", 4); op {
+		case 0, 1: // GetTemplate(names[op])
+			name := names[op]
+			want, wantOK, wantLoader := "", false, true
+			if c, ok := cached[name]; ok && !dev {
+				want, wantOK, wantLoader = c, true, false
+			} else {
+				for _, cand := range cands[op] {
+					if l.exists[cand] {
+						if l.content[cand] != "{{ if }}" {
+							want, wantOK = l.content[cand], true
+							if !dev {
+								cached[name] = want
+							}
+						}
+						break
+					}
+				}
+			}
+			l.calls = nil
+			t, err := set.GetTemplate(name)
+			got := "<err>"
+			if err == nil {
+				var b bytes.Buffer
+				if t.Execute(&b, nil, nil) == nil {
+					got = b.String()
+				}
+			}
+			if !wantOK {
+				want = "<err>"
+				vfReach("failed")
+			} else if wantLoader {
+				vfReach("loaded")
+			} else {
+				vfReach("hit")
+			}
+			vfAssert(got == want, "GetTemplate returns what the documented cache protocol returns")
+			vfAssert((len(l.calls) > 0) == wantLoader, "the loader is consulted exactly when the name is not cached (or in development mode)")
+		case 2: // create / change a file
+			f := files[ndChoice(tag+".file", len(files))]
+			version++
+			l.exists[f] = true
+			l.content[f] = "v" + ndItoa(version) + f
+			if ndChoice(tag+".broken", 2) == 1 {
+				l.content[f] = "{{ if }}"
+			}
+		default: // delete a file
+			f := files[ndChoice(tag+".file", len(files))]
+			l.exists[f] = false
+		}
+	}
+}
